@@ -6,6 +6,7 @@ mod rng;
 mod c11;
 mod c06;
 mod c01;
+mod c04;
 
 use std::io::{BufWriter, Write};
 
@@ -27,6 +28,7 @@ fn main() {
                 "C11" => c11::gen(tier, seed, &mut out),
                 "C06" => c06::gen(tier, seed, &mut out),
                 "C01" => c01::gen(tier, seed, &mut out),
+                "C04" => c04::gen(tier, seed, &mut out),
                 _ => {
                     eprintln!("unknown property {}", prop);
                     std::process::exit(2);
@@ -72,6 +74,13 @@ fn replay_one(toks: &[&str]) -> String {
             let scratch = common::scratch_root().join("c01r");
             std::fs::create_dir_all(&scratch).unwrap();
             let r = c01::observe(&toks[1..], &scratch);
+            common::rm_rf(&scratch);
+            r
+        }
+        "C04" => {
+            let scratch = common::scratch_root().join("c04r");
+            std::fs::create_dir_all(&scratch).unwrap();
+            let r = c04::observe(&toks[1..], &scratch);
             common::rm_rf(&scratch);
             r
         }
